@@ -114,6 +114,57 @@ func (f *fakeCap) GetCapability(ctx sdk.Context, name string) (*capabilitytypes.
 	return nil, false
 }
 
+// The keeper under test lives for a whole session of consecutive cases (a process lifetime between restarts); its two
+// collaborators are proxies that forward to the recording fakes of the case being run, so that anything the keeper
+// remembers from one message to the next (it must remember nothing) shows up in a later case.
+type proxyICA struct{ cur *fakeICA }
+
+func (p *proxyICA) RegisterInterchainAccount(ctx sdk.Context, connectionID, owner, version string) error {
+	return p.cur.RegisterInterchainAccount(ctx, connectionID, owner, version)
+}
+func (p *proxyICA) GetActiveChannelID(ctx sdk.Context, connectionID, portID string) (string, bool) {
+	return p.cur.GetActiveChannelID(ctx, connectionID, portID)
+}
+func (p *proxyICA) SendTx(ctx sdk.Context, chanCap *capabilitytypes.Capability, connectionID, portID string, d icatypes.InterchainAccountPacketData, timeoutTimestamp uint64) (uint64, error) {
+	return p.cur.SendTx(ctx, chanCap, connectionID, portID, d, timeoutTimestamp)
+}
+func (p *proxyICA) GetInterchainAccountAddress(ctx sdk.Context, connectionID string, portID string) (string, bool) {
+	return p.cur.GetInterchainAccountAddress(ctx, connectionID, portID)
+}
+
+type proxyCap struct{ cur *fakeCap }
+
+func (p *proxyCap) ClaimCapability(ctx sdk.Context, cpb *capabilitytypes.Capability, name string) error {
+	return p.cur.ClaimCapability(ctx, cpb, name)
+}
+func (p *proxyCap) GetCapability(ctx sdk.Context, name string) (*capabilitytypes.Capability, bool) {
+	return p.cur.GetCapability(ctx, name)
+}
+
+type session struct {
+	k    keeper.Keeper
+	ica  *proxyICA
+	cap  *proxyCap
+	left int
+}
+
+const sessionLen = 40 // cases per keeper lifetime
+
+var sess *session
+
+func currentSession(cdc *codec.ProtoCodec) *session {
+	if sess == nil || sess.left == 0 {
+		pi, pc := &proxyICA{}, &proxyCap{}
+		sess = &session{k: keeper.NewKeeper(cdc, pi, pc), ica: pi, cap: pc, left: sessionLen}
+	}
+	sess.left--
+	return sess
+}
+
+// recentOwners: valid owners of earlier cases, reused (same spelling, all upper case, all lower case) so that one
+// keeper lifetime sees the same account under different spellings and the same spelling repeatedly.
+var recentOwners []string
+
 // ---------- case description ----------
 
 type innerKind int
@@ -428,6 +479,26 @@ func (g *gen) variant(s string) (string, string) {
 
 func (g *gen) owner(tc *testCase) {
 	k := g.r.Intn(40)
+	if len(recentOwners) > 0 && g.r.Chance(1, 4) {
+		prev := recentOwners[len(recentOwners)-1-g.r.Intn(min(len(recentOwners), 6))]
+		switch g.r.Intn(3) {
+		case 0:
+			tc.owner = prev
+			tc.shapes = append(tc.shapes, "owner:recent_same_spelling")
+		case 1:
+			tc.owner = strings.ToUpper(prev)
+			tc.shapes = append(tc.shapes, "owner:recent_account_uppercase")
+		default:
+			tc.owner = strings.ToLower(prev)
+			tc.shapes = append(tc.shapes, "owner:recent_account_lowercase")
+		}
+		return
+	}
+	defer func() {
+		if _, err := sdk.AccAddressFromBech32(tc.owner); err == nil {
+			recentOwners = append(recentOwners, tc.owner)
+		}
+	}()
 	switch {
 	case k < 20:
 		tc.owner = g.validAddr()
@@ -683,7 +754,9 @@ func run(cdc *codec.ProtoCodec, tc *testCase) *outcome {
 	o := &outcome{}
 	o.ica = &fakeICA{keyConn: tc.keyConn, keyPort: tc.keyPort, chanID: tc.chanID, hasChan: tc.hasChan, sendOK: tc.sendOK}
 	o.cap = &fakeCap{key: tc.capKey, cap: capabilitytypes.NewCapability(tc.capIdx), hasCap: tc.hasCap}
-	k := keeper.NewKeeper(cdc, o.ica, o.cap)
+	ss := currentSession(cdc)
+	ss.ica.cur, ss.cap.cur = o.ica, o.cap
+	k := ss.k
 	ctx := sdk.NewContext(nil, tmproto.Header{Time: tc.blockTime}, false, log.NewNopLogger())
 	o.blockNs = exactUnixNs(ctx.BlockTime())
 
@@ -967,6 +1040,17 @@ func (m *monitors) check(id int, tc *testCase, o *outcome, desc map[string]inter
 		m.fire("send_on_failure", "SubmitTx failed but SendTx was called", desc)
 	case injected && len(sends) != 1:
 		m.fire("injected_error_without_single_send", "SendTx error surfaced without exactly one SendTx call", desc)
+	}
+	// the channel is looked up for THIS message's connection and for the port derived from THIS message's owner string
+	for _, q := range o.ica.chanQueries {
+		if q[0] != tc.conn || q[1] != wantPort(tc.owner) {
+			m.fire("channel_lookup_for_other_owner", fmt.Sprintf("GetActiveChannelID(%q, %q) for a message of owner %q on connection %q", q[0], q[1], tc.owner, tc.conn), desc)
+		}
+	}
+	// and when the owner is valid and the message well-formed, an active channel with its capability must be used
+	if o.vbErr == nil && o.innerIsMsg && tc.hasChan && tc.hasCap && tc.sendOK && tc.keyConn == tc.conn && tc.keyPort == wantPort(tc.owner) &&
+		tc.capKey == wantCapPath(tc.keyPort, tc.chanID) && o.panicked == nil && len(sends) == 0 {
+		m.fire("not_sent_although_channel_and_capability_exist", "SubmitTx sent nothing although the owner's active channel and its capability exist", desc)
 	}
 	// nothing is sent without an active channel or without the channel capability
 	chanFound := false
